@@ -305,6 +305,7 @@ func ruleQRFormulas(c *Ctx) {
 			}
 		}
 	}
+	c.Doc("K3-BOUNDS", "Bounds = image.Rect(0,0,w,h): 1D (Len(),1); QR (dimension,dimension) with dimension = 4*version+17; DataMatrix (Columns,Rows); Aztec (size,size); PDF417 (width, Len/width*moduleHeight)")
 	if fn := c.theFunc(R7, "qr.(*versionInfo).modulWidth"); fn != nil {
 		n := NewNormer(c.P)
 		n.BindParams(fn, "vi")
